@@ -488,7 +488,12 @@ class FieldHeader:
 
     @property
     def disambiguated(self) -> str:
-        return self.raw + "_" if self.raw in utils.RESERVED_NAMES else self.raw
+        # The header may name a nested field (`book.class`): every component
+        # of the path is read from its (possibly suffixed) attribute.
+        return ".".join(
+            name + "_" if name in utils.RESERVED_NAMES else name
+            for name in self.raw.split(".")
+        )
 
 
 @dataclasses.dataclass(frozen=True)
@@ -1209,6 +1214,11 @@ class RetryInfo:
 class RoutingParameter:
     field: str
     path_template: str
+
+    @property
+    def disambiguated_field(self) -> str:
+        """The attribute path of `field` on the request object."""
+        return FieldHeader(self.field).disambiguated
 
     def _split_into_segments(self, path_template):
         segments = path_template.split("/")
